@@ -1,4 +1,5 @@
 import Cirbo.Proofs.Func
+import Cirbo.Proofs.FuncSym
 /-!
 # C12 — All function representations answer every protocol query alike and correctly
 
@@ -14,7 +15,11 @@ lookup at the canonical index) and `PyFunction` (ev = the callable).  The querie
 -- OBLIGATION: c12_dependent_and_significant
 -- OBLIGATION: c12_monotone_at_variants_agree_and_correct
 -- OBLIGATION: c12_monotone_circuit_eq_table
--- PARTIAL: not yet proved (modelled and compared with the code exhaustively for n<=2,m<=2 and sampled beyond): is_symmetric / is_symmetric_at / find_negations_to_make_symmetric against the weight-based definition (needs the itertools.combinations enumeration lemma), PyFunction.is_monotone (consecutive vector comparison) against the per-output definition, TruthTable's index-based is_output_equal_to_input against the generic one, get_truth_table ordering, define() and the integer wrappers' bit order.
+-- OBLIGATION: c12_is_symmetric
+-- OBLIGATION: c12_is_symmetric_at
+-- OBLIGATION: c12_find_negations_to_make_symmetric
+-- OBLIGATION: c12_pyfunction_is_monotone
+-- PARTIAL: not yet proved (modelled and compared with the code exhaustively for n<=2,m<=2 and sampled beyond): TruthTable's index-based is_output_equal_to_input against the generic one, get_truth_table ordering, define() and the integer wrappers' bit order. find_negations_to_make_symmetric: that the returned vector is the first in enumeration order is by correspondence (the theorem says it works, and that None means none works).
 -/
 namespace Cirbo
 open FRep
@@ -59,6 +64,36 @@ theorem c12_monotone_circuit_eq_table (F : FRep) (inv : Bool) :
     (F.isMonotoneT inv = true ↔ ∀ o, o < F.m → SortedRow inv (F.row o)) :=
   ⟨isMonotone_agree F inv, isMonotoneT_iff F inv⟩
 
+/-- `is_symmetric`: the function's value depends only on the number of True inputs (uses: the
+`itertools.combinations` enumeration lists exactly the index sets of the vectors of each weight) -/
+theorem c12_is_symmetric (F : FRep) :
+    F.isSymmetric = true ↔ ∀ x y : List Bool, x.length = F.n → y.length = F.n → weight x = weight y → F.ev x = F.ev y :=
+  isSymmetric_iff F
+
+theorem c12_is_symmetric_at (F : FRep) (o : Nat) :
+    F.isSymmetricAt o = true ↔ ∀ x y : List Bool, x.length = F.n → y.length = F.n → weight x = weight y →
+      F.evAt x o = F.evAt y o :=
+  isSymmetricAt_iff F o
+
+/-- `find_negations_to_make_symmetric`: a returned vector `neg` (one bit per input) makes the chosen
+outputs symmetric in the inputs flipped by `neg`; `None` means no vector does -/
+theorem c12_find_negations_to_make_symmetric (F : FRep) (outs : List Nat) :
+    (∀ neg, F.findNegations outs = some neg → neg.length = F.n ∧
+      ∀ y1 y2 : List Bool, y1.length = F.n → y2.length = F.n → weight y1 = weight y2 →
+        outs.map (fun o => F.evAt (xorNeg F.n neg y1) o) = outs.map (fun o => F.evAt (xorNeg F.n neg y2) o)) ∧
+    (F.findNegations outs = none → ∀ neg : List Bool, neg.length = F.n →
+      ¬ ∀ y1 y2 : List Bool, y1.length = F.n → y2.length = F.n → weight y1 = weight y2 →
+        outs.map (fun o => F.evAt (xorNeg F.n neg y1) o) = outs.map (fun o => F.evAt (xorNeg F.n neg y2) o)) :=
+  findNegations_spec F outs
+
+/-- `PyFunction.is_monotone` (consecutive whole-vector comparison) is the per-output definition, hence
+equal to `TruthTable.is_monotone` and `Circuit.is_monotone`, for every function with `m` outputs -/
+theorem c12_pyfunction_is_monotone (F : FRep) (inv : Bool) (hlen : ∀ x, (F.ev x).length = F.m) :
+    (F.isMonotoneP inv = true ↔ ∀ o, o < F.m → SortedRow inv (F.row o)) ∧
+    F.isMonotoneP inv = F.isMonotoneT inv ∧ F.isMonotoneP inv = F.isMonotoneC inv :=
+  ⟨isMonotoneP_iff F inv hlen, isMonotoneP_eq_T F inv hlen,
+   (isMonotoneP_eq_T F inv hlen).trans (isMonotone_agree F inv).symm⟩
+
 /-! Non-vacuity: a concrete function (x0 AND NOT x1, and x1) through the table representation -/
 def exF : FRep := FRep.ofTable 2 [[false, false, true, false], [false, true, false, true]]
 example : exF.isConstant = false ∧ exF.equalInput 1 1 = true ∧ exF.isDependent 0 1 = true ∧
@@ -73,5 +108,9 @@ example : exF.isConstant = false ∧ exF.equalInput 1 1 = true ∧ exF.isDepende
 #print axioms c12_dependent_and_significant
 #print axioms c12_monotone_at_variants_agree_and_correct
 #print axioms c12_monotone_circuit_eq_table
+#print axioms c12_is_symmetric
+#print axioms c12_is_symmetric_at
+#print axioms c12_find_negations_to_make_symmetric
+#print axioms c12_pyfunction_is_monotone
 
 end Cirbo
